@@ -62,6 +62,8 @@ pub fn run(args: &[String]) -> bool {
         "vk-bytes-length" => crate::scenarios17::vk_bytes_length_real(args.get(1).map(|s| s.as_str()).unwrap_or("rawbytes")),
         "pk-bytes-length" => crate::scenarios17::pk_bytes_length_and_roundtrip_real(args.get(1).map(|s| s.as_str()).unwrap_or("rawbytes")),
         "vk-roundtrip" => crate::scenarios17::vk_roundtrip_real(args.get(1).map(|s| s.as_str()).unwrap_or("rawbytes")),
+        // C15 fold (h_batch_fold.rs): optional argument = largest batch size tried (default 3)
+        "batch-fold-attack" => sc::batch_fold_attack(if args.len() > 1 { n(1) as usize } else { 3 }),
         _ => {
             println!("unknown scenario");
             false
